@@ -30,7 +30,7 @@ title=notes.splitlines()[0].lstrip("# ").strip() if notes else id_
 meta={"id":id_,"property":pid,"title":title,
       "origin":"written by a fresh sub-agent that was given only the property text and a scratch worktree; confirmed here: the demo passes on the clean tree, fails with the patch, and the repository's own suite stays green with the patch",
       "needs_to_manifest":next((l.strip("- ").strip() for l in notes.splitlines() if l.lower().startswith("- to manifest")), ""),
-      "patch_rebased_onto_fixed_tree": id_ in ("C07-m1","C02-m2","C08-m1","C19-m1","C17-m2"),
+      "patch_rebased_onto_fixed_tree": id_ in ("C07-m1","C02-m2","C08-m1","C19-m1","C17-m2","C15-m4","C16-m3"),
       "how_to_run":"tools/try_mutant.sh <check id> /verif/seeded/%s/patch.diff  (applies to /repo, runs the check, undoes the change)"%id_,
       "verdicts":verd,
       "caught":any(v["violations"]>0 for v in verd)}
